@@ -13,6 +13,7 @@ use kernel::seams::Xo;
 use kernel::sim::{NetAction, MS};
 use refimpl::layout::{point_positions, PokFields, SignCryptFields, TimeLockFields};
 use refimpl::{PointClass, Pt};
+use simtypes::vtree;
 use simtypes::{Codec, Grp, Lib, Op, Out, Ty};
 use std::collections::BTreeMap;
 
@@ -199,7 +200,13 @@ pub fn codecs_of(ty: Ty) -> Vec<Codec> {
     };
     // the human-readable form also as a reader hands it over (owned strings) and as a field of a parsed document
     v.extend(Codec::JSON_FRONT_ENDS);
+    // a third serde format, owned by the harness: self-describing, lets the document choose sequence lengths, lends or
+    // gives away buffers, writes structs as sequences or as maps (simtypes::vtree) — every type implements the serde traits
+    v.extend(Codec::TREE_FORMATS);
     v
+}
+pub fn is_tree(c: Codec) -> bool {
+    c.tree_mode().is_some()
 }
 /// types whose byte form has one exact length per (type, group)
 pub fn fixed_len(ty: Ty) -> bool {
@@ -284,7 +291,7 @@ fn run_vault(plan: &Plan, lib: &dyn Lib, rec: &mut Rec) {
                 continue;
             };
             rec.expect("C15", "encoding-deterministic", enc2.first() == Some(e.as_slice()), || format!("{} {} | two encodings of one value differ", s.ty.name(), cd.name()));
-            if fixed_len(s.ty) && !matches!(cd, Codec::Json | Codec::JsonReader | Codec::JsonValue) {
+            if fixed_len(s.ty) && !matches!(cd, Codec::Json | Codec::JsonReader | Codec::JsonValue) && !is_tree(cd) {
                 let prev = *lens.entry((s.ty as u8, cd as u8)).or_insert(e.len());
                 rec.expect("C15", "fixed-size-types-have-one-length", prev == e.len(), || format!("{} {} | lengths {} and {} for one (type, group)", s.ty.name(), cd.name(), prev, e.len()));
             }
@@ -409,8 +416,26 @@ fn run_byz_encoder(plan: &Plan, lib: &dyn Lib, rec: &mut Rec) {
     for s in sps.iter().filter(|s| s.codec == Codec::Bytes && !s.label.contains("identity")) {
         let positions = point_positions(s.ty.name(), pl, &s.bytes);
         let is_share = share_types.contains(&s.ty);
-        for cd in [Codec::Bytes, Codec::Bare, Codec::Json] {
+        for cd in [Codec::Bytes, Codec::Bare, Codec::Json, Codec::TreeBin, Codec::TreeHr] {
             let Some(enc) = to_codec(rec, lib, g, s, cd).first().map(|b| b.to_vec()) else { continue };
+            if is_tree(cd) && !is_share {
+                // the third format: a short write is a sequence with one element fewer (the document stays well-formed);
+                // every point- or scalar-sized run of the document loses its last element
+                if let Ok(tree) = vtree::V::from_wire(&enc) {
+                    for len in [32usize, 48, 96] {
+                        for node in vtree::runs_of_len(&tree, len) {
+                            let (t, _) = vtree::mutate(&tree, node, 1, 0);
+                            rec.fault("torn-write");
+                            let out = recode(rec, lib, g, s.ty, cd, Codec::Bytes, &t.to_wire());
+                            // a shorter payload of a variable-length field is another valid value, not a truncation
+                            let variable = matches!(s.ty, Ty::SignCryptCiphertext | Ty::TimeCryptCiphertext) && len == 32 && node > 2;
+                            if !variable {
+                                rec.expect("C16", "truncated-input-rejected", !out.is_ok(), || format!("tree-run-shortened {} {} | a {}-element run with its last element missing was accepted", s.ty.name(), cd.name(), len));
+                            }
+                        }
+                    }
+                }
+            }
             // (d) every strict prefix: what a torn or short write leaves behind
             let step = if enc.len() > 400 { enc.len() / 97 + 1 } else { 1 };
             let mut l = 0;
@@ -473,6 +498,14 @@ fn run_byz_encoder(plan: &Plan, lib: &dyn Lib, rec: &mut Rec) {
                             }
                             text.replacen(&h_good, &h_bad, 1).into_bytes()
                         }
+                        _ if is_tree(cd) => {
+                            let Ok(mut tree) = vtree::V::from_wire(&enc) else { continue };
+                            if !vtree::substitute(&mut tree, good, &bad) {
+                                rec.probe("tree-point-not-found-in-document");
+                                continue;
+                            }
+                            tree.to_wire()
+                        }
                         _ => {
                             let Some(p) = subslice_pos(&enc, good) else { continue };
                             let mut e = enc.clone();
@@ -511,6 +544,13 @@ fn run_byz_encoder(plan: &Plan, lib: &dyn Lib, rec: &mut Rec) {
                                     continue;
                                 }
                                 text.replacen(&hex(gi), &hex(&bi), 1).replacen(&hex(gj), &hex(&bj), 1).into_bytes()
+                            }
+                            _ if is_tree(cd) => {
+                                let Ok(mut tree) = vtree::V::from_wire(&enc) else { continue };
+                                if !(vtree::substitute(&mut tree, gi, &bi) && vtree::substitute(&mut tree, gj, &bj)) {
+                                    continue;
+                                }
+                                tree.to_wire()
                             }
                             _ => {
                                 let (Some(a), Some(b)) = (subslice_pos(&enc, gi), subslice_pos(&enc, gj)) else { continue };
@@ -749,6 +789,34 @@ fn run_hostile_decoders(plan: &Plan, lib: &dyn Lib, rec: &mut Rec) {
             e.extend_from_slice(&x.bytes(extra));
             rec.fault("extend");
             rec.call(lib, g, Op::Exercise, &[&[s.ty as u8], &[cd as u8], &e]);
+            if is_tree(cd) {
+                // the Byzantine encoder of the third format: well-formed documents with the wrong shape — one element more or
+                // fewer in a sequence, 300 more, bytes where a sequence was and the reverse, a string as bytes, another integer,
+                // another variant tag, unknown / duplicate / missing map keys, a node replaced or wrapped
+                if let Ok(tree) = vtree::V::from_wire(&enc) {
+                    let nodes = tree.size();
+                    // every container node and a sample of the leaves, every mutation kind
+                    let mut targets: Vec<usize> = (0..nodes.min(6)).collect();
+                    for len in [32usize, 48, 96, 1, 2] {
+                        targets.extend(vtree::runs_of_len(&tree, len));
+                    }
+                    for _ in 0..4 {
+                        targets.push(x.below(nodes as u64) as usize);
+                    }
+                    targets.sort();
+                    targets.dedup();
+                    for node in targets {
+                        for how in 0..vtree::MUTATIONS {
+                            let (t, name) = vtree::mutate(&tree, node, how, x.below(256) as u8);
+                            if name == "unchanged" {
+                                continue;
+                            }
+                            rec.fault("byz-document-shape");
+                            rec.call(lib, g, Op::Exercise, &[&[s.ty as u8], &[cd as u8], &t.to_wire()]);
+                        }
+                    }
+                }
+            }
             if matches!(cd, Codec::Json | Codec::JsonReader | Codec::JsonValue) {
                 // text that stays VALID UTF-8 and keeps its byte length but is no longer ASCII: a 2-, 3- or 4-byte character
                 // over 2, 3 or 4 adjacent hex digits, starting on an even and on an odd digit; the same as a \u escape
@@ -819,7 +887,14 @@ fn run_hostile_decoders(plan: &Plan, lib: &dyn Lib, rec: &mut Rec) {
     }
     // empty slices into every decoder of every type
     for ty in Ty::ALL {
-        for cd in Codec::ALL.into_iter().chain(Codec::JSON_FRONT_ENDS) {
+        for cd in Codec::ALL.into_iter().chain(Codec::JSON_FRONT_ENDS).chain(Codec::TREE_FORMATS) {
+            if is_tree(cd) {
+                // minimal documents of every kind into every decoder
+                use vtree::V;
+                for d in [V::Unit, V::None, V::Bool(true), V::U(0), V::U(u64::MAX), V::I(-1), V::U128(u128::MAX), V::Bytes(vec![]), V::Str(String::new()), V::Seq(vec![]), V::Map(vec![]), V::Some(Box::new(V::Unit)), V::Variant(0, "Basic".into(), Box::new(V::Unit)), V::Variant(9, "".into(), Box::new(V::Seq(vec![]))), V::Seq(vec![V::Seq(vec![]); 3]), V::Bytes(vec![0; 33]), V::Str("00".repeat(48))] {
+                    rec.call(lib, g, Op::Exercise, &[&[ty as u8], &[cd as u8], &d.to_wire()]);
+                }
+            }
             rec.call(lib, g, Op::Exercise, &[&[ty as u8], &[cd as u8], &[]]);
             rec.call(lib, g, Op::Exercise, &[&[ty as u8], &[cd as u8], &[0]]);
             rec.call(lib, g, Op::Exercise, &[&[ty as u8], &[cd as u8], &[1]]);
